@@ -561,6 +561,12 @@ def _closure_names(f, exprs, depth=4) -> set[str]:
                                 tg = n.targets if isinstance(n, ast.Assign) else [n.target]
                                 if any(isinstance(y, ast.Name) and y.id == x.id for t in tg for y in ast.walk(t)):
                                     nxt.append(n.value)
+                                    # control dependence: a flag set to constants under tests depends on what they test
+                                    q = getattr(n, "_parent", None)
+                                    while q is not None and q is not f.node:
+                                        if isinstance(q, (ast.If, ast.While)):
+                                            nxt.append(q.test)
+                                        q = getattr(q, "_parent", None)
                             elif isinstance(n, (ast.For, ast.comprehension)) and any(isinstance(y, ast.Name) and y.id == x.id for y in ast.walk(n.target)):
                                 nxt.append(n.iter)
         work = nxt
@@ -607,6 +613,8 @@ def rule_r7(ctx, rule="R7"):
                         tested.add(norm(x))
                     elif isinstance(x, ast.Name):
                         tested.add(x.id)
+            if isinstance(blk, ast.If):
+                tested |= _closure_names(f, [blk.test])  # … through the locals the test reads (an inlined predicate's result)
             tested -= {"None", "True", "False", "isinstance", "len", "hasattr", "getattr"}
             bad = None
             if not (copied or warned):
